@@ -516,10 +516,10 @@ LEVEL_TEXT = ('Lean theorems over the reader/construct model of parse_v3 against
               'map and those records); the model is tied to the code by differential runs on generated dumps with real binary '
               'plists incl. all parser attributes, parse sequences, the public kevents/os_log_events entry points, and '
               'formatted_traces on version-3 dumps (section end-to-end, incl. blocks that raise behind the last chunk and cuts).'
-              " TRANSLATION TIE: the source text of parse / parse_v2 / parse_v3 (to the end of its chunk loop) / seek_until / set_thread_map is translated on every run (tools/gen_pyir_rd.py, pure ast) into the Python-subset IR of Model/PyIRRd (statements over the model's reader: read, while/for/break/raise/yield, bytes slices and comparisons, construct parsers as primitives; big-step interpreter); source_is_expected_ir: the generated program is the one of Spec/PyIRRdExpected; parse_is_interpreted_source: for EVERY byte string and prior state the model's parse IS that program run by the interpreter (+ the hand-modelled tail of parse_v3), with the same read calls; per piece: seek_until_ir_eq_model, parse_v3_ir_eq_model.")
+              " TRANSLATION TIE: the source text of parse / parse_v2 / parse_v3 (WHOLE: header, scans, thread map, chunk loop, reader.seek(-8, 1), the additional-data range, the attribute resets, the block loop with its if/elif chain on block.tag, the log loop) / seek_until / set_thread_map is translated on every run (tools/gen_pyir_rd.py, pure ast) into the Python-subset IR of Model/PyIRRd (statements over the model's reader: read, seek(-k, 1), while/for/break/raise/yield, bytes slices and comparisons, for-loops over the parsed blocks and the raw log events, the per-branch operations on the parser attributes, construct parsers / plistlib.loads / from_raw_log_event as primitives; big-step interpreter); source_is_expected_ir: the generated program is the one of Spec/PyIRRdExpected; parse_is_interpreted_source: for EVERY byte string and prior state the model's parse IS that program run by the interpreter, with the same read calls — nothing of parse_v3 is hand-modelled any more; per piece: seek_until_ir_eq_model, parse_v3_tail_ir_eq_model (the interpreted tail = tailV3 from any state), parse_v3_ir_eq_model.")
 LEVEL_NOTE = ('plistlib.loads and OsLogEvent decoding are opaque parameters of the model (BlockOk / LogsResolve state what must load); '
               '"the dump\'s string index" = the LAST string block (assumption of the specification). Trusted: Lean kernel, '
               'Model/Construct + Model/Reader as models of construct/BytesIO (diffed, not verified), Spec.encodeV3 as the meaning of '
               '"version-3 dump".'
-              ' The hand model of the readers is no longer trusted by itself: it is proved equal to the interpreted source (trusted instead: translator tools/gen_pyir_rd.py and interpreter Model/PyIRRd, both tested against CPython by the sections *-ir; the construct parsers as primitives; the tail of parse_v3).')
+              ' The hand model of the readers is no longer trusted by itself: it is proved equal to the interpreted source (trusted instead: translator tools/gen_pyir_rd.py and interpreter Model/PyIRRd, both tested against CPython by the sections *-ir; the construct parsers incl. kd_v3_additional_data, plistlib.loads and OsLogEvent.from_raw_log_event as primitives / parameters; the tail of parse_v3 is translated and proved like the rest).')
 TECHNIQUE = 'Lean 4 proof (parser/encoder round trip) + differential correspondence + translation validation (source text -> IR, proved equal to the model)'
